@@ -102,6 +102,12 @@ class WireChopManager(WireManagerBase):
         super().update()
 
     def grade(self) -> None:
+        # start afresh so that grading the same mesh again (a second write())
+        # gives the same result instead of piling up chops
+        self.grading = Grading(0)
+        for wire in self.wires:
+            wire.grading = Grading(wire.length)
+
         self.update()
 
         # Create a proper Grading from chops
